@@ -1,7 +1,7 @@
 """Termination guard (engine E4, fuel part).
 
 `guarded(fn, seconds)` runs fn under a SIGALRM; when the alarm fires the same call is re-run under
-*fuel*: sys.monitoring counts JUMP and BRANCH events of every Python code object and raises
+*fuel*: sys.monitoring counts JUMP events (loop back-edges, continue/break) of every Python code object and raises
 FuelExhausted inside the monitored code once a budget is exceeded. Only a fuel exhaustion is a
 (deterministic, replayable) non-termination verdict; a call that merely was slow passes.
 """
@@ -60,8 +60,7 @@ def with_fuel(fn, budget: int):
         mon.free_tool_id(_TOOL)
         mon.use_tool_id(_TOOL, "solvor-verif-fuel")
     mon.register_callback(_TOOL, mon.events.JUMP, on_jump)
-    mon.register_callback(_TOOL, mon.events.BRANCH, on_jump)
-    mon.set_events(_TOOL, mon.events.JUMP | mon.events.BRANCH)
+    mon.set_events(_TOOL, mon.events.JUMP)
     try:
         v = fn()
         return v, used[0], None
@@ -70,11 +69,10 @@ def with_fuel(fn, budget: int):
     finally:
         mon.set_events(_TOOL, 0)
         mon.register_callback(_TOOL, mon.events.JUMP, None)
-        mon.register_callback(_TOOL, mon.events.BRANCH, None)
         mon.free_tool_id(_TOOL)
 
 
-def guarded(fn, seconds: float = 2.0, fuel: int = 3_000_000):
+def guarded(fn, seconds: float = 2.0, fuel: int = 20_000_000):
     """Run fn; returns (value, verdict) with verdict in {None, 'nontermination'}.
 
     'nontermination' is only reported when the fuel-limited re-run exhausts its budget, which is a
